@@ -1037,6 +1037,8 @@ structure Func where
   tail : HTail := {}
   /-- the attributes of each parameter (`i8* nocapture readonly %p`), as positions in `kParamAttr`, in the order written; one list per parameter -/
   pattrs : List (List Nat) := params.map (fun _ => [])
+  /-- a variadic function: `...` behind the last parameter (`declare i32 @printf(i8* %0, ...)`) -/
+  variadic : Bool := false
 
 /-- the parameters with their attributes -/
 def zipA : List (Ty × Ident) → List (List Nat) → List ((Ty × Ident) × List Nat)
@@ -1063,9 +1065,15 @@ def paramsString : List ((Ty × Ident) × List Nat) → Bytes
   | [(p, a)] => tyString p.1 ++ [32] ++ flagsString kParamAttr a ++ identString p.2
   | (p, a) :: q :: ps => tyString p.1 ++ [32] ++ flagsString kParamAttr a ++ identString p.2 ++ sComma ++ paramsString (q :: ps)
 
+def sDots : Bytes := [46, 46, 46]                  -- "..."
+def sCommaDots : Bytes := [44, 32, 46, 46, 46]     -- ", ..."
+
+/-- the marker of a variadic function behind the parameters (ir/func.go headerString: `...` alone, `, ...` behind a parameter) -/
+def varString (noParams : Bool) (v : Bool) : Bytes := if v then (if noParams then sDots else sCommaDots) else []
+
 /-- the header from the return type on -/
 def headerRest (f : Func) : Bytes :=
-  tyString f.ret ++ [32] ++ Enc.globalName f.name ++ [40] ++ paramsString (zipA f.params f.pattrs) ++ [41, 32] ++ itemsString (itemsOf f.tail) ++ [123]
+  tyString f.ret ++ [32] ++ Enc.globalName f.name ++ [40] ++ paramsString (zipA f.params f.pattrs) ++ varString f.params.isEmpty f.variadic ++ [41, 32] ++ itemsString (itemsOf f.tail) ++ [123]
 
 def headerString (f : Func) : Bytes := sDefine ++ flagsString kLead f.lead ++ headerRest f
 
@@ -1123,7 +1131,7 @@ def tailDecl : List HItem → Bytes
 
 /-- a function without blocks is a declaration (ir/func.go LLString): one line, the parameters with their names -/
 def declString (f : Func) : Bytes :=
-  sDeclare ++ flagsString kLead f.lead ++ tyString f.ret ++ [32] ++ Enc.globalName f.name ++ [40] ++ paramsString (zipA f.params f.pattrs) ++ [41] ++ tailDecl (itemsOf f.tail)
+  sDeclare ++ flagsString kLead f.lead ++ tyString f.ret ++ [32] ++ Enc.globalName f.name ++ [40] ++ paramsString (zipA f.params f.pattrs) ++ varString f.params.isEmpty f.variadic ++ [41] ++ tailDecl (itemsOf f.tail)
 
 def printFunc (useHex : Int → Bool) (f : Func) : List Bytes :=
   if f.blocks.isEmpty then [declString f]
@@ -1145,7 +1153,9 @@ def readParams : Nat → Bytes → Option (List ((Ty × Ident) × List Nat) × B
       let (a, r) := readFlags (r0.length + 1) kParamAttr r0
       (match readIdent r with
        | some (i, 44 :: 32 :: r') =>
-         (match readParams f r' with
+         -- (`, ...` behind the last parameter is the marker of a variadic function, read by the caller)
+         if r'.take 3 == sDots then some ([((t, i), a)], 44 :: 32 :: r')
+         else (match readParams f r' with
           | some (ps, r'') => some (((t, i), a) :: ps, r'')
           | none => none)
        | some (i, r') => some ([((t, i), a)], r')
@@ -1191,7 +1201,7 @@ def readTail (s : Bytes) : Option HTail :=
   | _ => none
 
 /-- `define [keywords] T @name(params) [clauses] {`: (keywords as written, return type, name, parameters, clauses as written) -/
-def readHeader (s : Bytes) : Option (List Nat × Ty × Bytes × List ((Ty × Ident) × List Nat) × HTail) :=
+def readHeader (s : Bytes) : Option (List Nat × Ty × Bytes × List ((Ty × Ident) × List Nat) × Bool × HTail) :=
   match TyParse.stripPrefix sDefine s with
   | none => none
   | some r00 =>
@@ -1202,10 +1212,16 @@ def readHeader (s : Bytes) : Option (List Nat × Ty × Bytes × List ((Ty × Ide
        | some (tok, 40 :: r2) =>
          (match Enc.decodeIdentBody tok with
           | .name n =>
-            if r2.head? == some 41 then (match readTail r2 with | some tl => some (lead, rt, n, [], tl) | none => none)
-            else (match readParams (r2.length + 1) r2 with
-                  | some (ps, r3) => (match readTail r3 with | some tl => some (lead, rt, n, ps, tl) | none => none)
-                  | none => none)
+            if r2.head? == some 41 then (match readTail r2 with | some tl => some (lead, rt, n, [], false, tl) | none => none)
+            else match TyParse.stripPrefix sDots r2 with
+            | some r3 => (match readTail r3 with | some tl => some (lead, rt, n, [], true, tl) | none => none)
+            | none =>
+              (match readParams (r2.length + 1) r2 with
+               | some (ps, r3) =>
+                 (match TyParse.stripPrefix sCommaDots r3 with
+                  | some r4 => (match readTail r4 with | some tl => some (lead, rt, n, ps, true, tl) | none => none)
+                  | none => (match readTail r3 with | some tl => some (lead, rt, n, ps, false, tl) | none => none))
+               | none => none)
           | .id _ => none)
        | _ => none)
     | _ => none
@@ -1346,7 +1362,7 @@ def readBlocks : Nat → List Bytes → Option (List Block)
            | none => none)
 
 /-- `declare T @f(params)`: read as the header of a definition -/
-def readDecl (s : Bytes) : Option (List Nat × Ty × Bytes × List ((Ty × Ident) × List Nat) × HTail) :=
+def readDecl (s : Bytes) : Option (List Nat × Ty × Bytes × List ((Ty × Ident) × List Nat) × Bool × HTail) :=
   match TyParse.stripPrefix sDeclare s with
   | some r => readHeader (sDefine ++ r ++ [32, 123])
   | none => none
@@ -1354,10 +1370,10 @@ def readDecl (s : Bytes) : Option (List Nat × Ty × Bytes × List ((Ty × Ident
 def readFunc (ls : List Bytes) : Option Func :=
   match ls with
   | [] => none
-  | [h] => (match readDecl h with | some (lead, rt, n, ps, tl) => some ⟨rt, n, ps.map (·.1), [], lead, tl, ps.map (·.2)⟩ | none => none)
+  | [h] => (match readDecl h with | some (lead, rt, n, ps, v, tl) => some ⟨rt, n, ps.map (·.1), [], lead, tl, ps.map (·.2), v⟩ | none => none)
   | h :: rest =>
     match readHeader h, readBlocks (rest.length + 1) rest with
-    | some (lead, rt, n, ps, tl), some bs => some ⟨rt, n, ps.map (·.1), bs, lead, tl, ps.map (·.2)⟩
+    | some (lead, rt, n, ps, v, tl), some bs => some ⟨rt, n, ps.map (·.1), bs, lead, tl, ps.map (·.2), v⟩
     | _, _ => none
 
 /-! ### translation (asm/local.go) -/
@@ -1726,7 +1742,7 @@ theorem translateIn_none_of_core (ge : GEnv) (f : Func) (h : translateCore ge f 
   unfold translateIn; split <;> simp [h]
 
 /-- the type of a reference to a function: pointer to its signature in the address space of the function (ir/func.go Type) -/
-def funcRefTy (f : Func) : Ty := .ptr (.func f.ret (TyList.ofList (f.params.map (·.1))) false) f.tail.addrspace
+def funcRefTy (f : Func) : Ty := .ptr (.func f.ret (TyList.ofList (f.params.map (·.1))) f.variadic) f.tail.addrspace
 
 /-- a function definition on its own: the only global is the function itself -/
 def selfEnv (f : Func) : GEnv := [(f.name, funcRefTy f)]
